@@ -253,11 +253,17 @@ EnvAt(P, d, pos, symv, i) ==
                     ELSE symv[x]]
     IN base
 
+\* command-line defines: P.defines is a sequence of [name (full dotted name), v (value)]
+Defines(P) == IF "defines" \in DOMAIN P THEN P.defines ELSE <<>>
+HasDefine(P, x) == \E k \in 1..Len(Defines(P)) : Defines(P)[k].name = x
+DefineOf(P, x) == Defines(P)[CHOOSE k \in 1..Len(Defines(P)) : Defines(P)[k].name = x].v
+
 \* one round of constant evaluation (constants may refer to each other in any order)
 RECURSIVE ConstRound(_, _, _, _, _)
 ConstRound(P, d, pos, symv, i) ==
     IF i > Len(P.items) THEN symv
     ELSE IF P.items[i].k # "const" THEN ConstRound(P, d, pos, symv, i + 1)
+    ELSE IF HasDefine(P, d.names[i]) THEN ConstRound(P, d, pos, symv, i + 1)      \* a command-line define wins
     ELSE LET x == Eval(P.items[i].e, EnvAt(P, d, pos, symv, i)).v IN
          ConstRound(P, d, pos, [symv EXCEPT ![d.names[i]] = x], i + 1)
 
@@ -284,9 +290,12 @@ Assemble(P) ==
         consts == {i \in 1..Len(P.items) : P.items[i].k = "const"}
         sym0 == [x \in {d.names[i] : i \in labels \cup consts} |->
                     LET i == CHOOSE i \in labels \cup consts : d.names[i] = x IN
-                    IF i \in labels THEN IntV(pos[i] \div 8, -1) ELSE UnknownV]
+                    IF i \in labels THEN IntV(pos[i] \div 8, -1)
+                    ELSE IF HasDefine(P, x) THEN DefineOf(P, x) ELSE UnknownV]
         symv == ConstFix(P, d, pos, sym0, Cardinality(consts) + 1)
-    IN  IF \E i \in labels : pos[i] % 8 # 0
+    IN  IF \E k \in 1..Len(Defines(P)) : Defines(P)[k].name \notin {d.names[i] : i \in consts}
+        THEN [t |-> "err", why |-> "unused-define", out |-> <<>>, syms |-> <<>>]
+        ELSE IF \E i \in labels : pos[i] % 8 # 0
         THEN [t |-> "err", why |-> "misaligned-label", out |-> <<>>, syms |-> <<>>]
         ELSE IF \E x \in DOMAIN symv : symv[x].t \in {"err", "failed", "unknown"}
         THEN [t |-> "err", why |-> "constant", out |-> <<>>, syms |-> <<>>]
